@@ -21,6 +21,21 @@ const c16Rule = "random tree of 1-24 blocks with drawn primary/secondary marks a
 
 func c16Time(a int64) time.Time { return time.Unix(1_700_000_000+a, 0) }
 
+// c16TimeRep returns the arrival instant a in one of three representations
+// (UTC, a fixed +01:00 zone, the local zone), chosen per block: blocks that
+// arrive at the same instant must tie on arrival whatever the Location of the
+// time.Time value they were added with.
+func c16TimeRep(a int64, sel byte) time.Time {
+	t := c16Time(a)
+	switch sel % 3 {
+	case 0:
+		return t.UTC()
+	case 1:
+		return t.In(time.FixedZone("c16+1", 3600))
+	}
+	return t
+}
+
 type c16Score struct {
 	primaries int
 	num       uint
@@ -199,7 +214,7 @@ func TestC16Best(t *testing.T) {
 		}
 		ctx := func() string { return descr.String() }
 		addTo := func(bt *BlockTree, i int, which string) {
-			if err := bt.AddBlock(m.b[i].hdr, c16Time(m.b[i].arrival)); err != nil {
+			if err := bt.AddBlock(m.b[i].hdr, c16TimeRep(m.b[i].arrival, m.b[i].hash[1])); err != nil {
 				t.Fatalf("%s: AddBlock(%d) into tree %s: %v", ctx(), i, which, err)
 			}
 		}
@@ -359,12 +374,12 @@ func TestC16Exhaustive(t *testing.T) {
 				btA := NewBlockTreeFromRoot(m.b[0].hdr)
 				btB := NewBlockTreeFromRoot(m.b[0].hdr)
 				for i := 1; i <= n; i++ {
-					if err := btA.AddBlock(m.b[i].hdr, c16Time(m.b[i].arrival)); err != nil {
+					if err := btA.AddBlock(m.b[i].hdr, c16TimeRep(m.b[i].arrival, m.b[i].hash[1])); err != nil {
 						t.Fatalf("AddBlock: %v", err)
 					}
 				}
 				for _, i := range orderB {
-					if err := btB.AddBlock(m.b[i].hdr, c16Time(m.b[i].arrival)); err != nil {
+					if err := btB.AddBlock(m.b[i].hdr, c16TimeRep(m.b[i].arrival, m.b[i].hash[1])); err != nil {
 						t.Fatalf("AddBlock: %v", err)
 					}
 				}
